@@ -21,6 +21,7 @@ var _ Textual = new(columnEnum)
 // columnEnum represents a string column
 type columnEnum struct {
 	chunks[uint32]
+	lock sync.RWMutex // Guards data, which is shared by all chunks
 	seek *intmap.Sync // The hash->location table
 	data []string     // The string data
 }
@@ -55,15 +56,21 @@ func (c *columnEnum) Apply(chunk commit.Chunk, r *commit.Reader) {
 func (c *columnEnum) findOrAdd(v []byte) uint32 {
 	target := uint32(xxh3.Hash(v))
 	at, _ := c.seek.LoadOrStore(target, func() uint32 {
+		c.lock.Lock()
 		c.data = append(c.data, string(v))
-		return uint32(len(c.data)) - 1
+		at := uint32(len(c.data)) - 1
+		c.lock.Unlock()
+		return at
 	})
 	return at
 }
 
 // readAt reads a string at a location
 func (c *columnEnum) readAt(at uint32) string {
-	return c.data[at]
+	c.lock.RLock()
+	v := c.data[at]
+	c.lock.RUnlock()
+	return v
 }
 
 // Value retrieves a value at a specified index
